@@ -49,6 +49,8 @@ def run(tier, seed):
     rng = ck.rng
     keys = chaingen.Keys()
     nblocks = 5 if tier == 'quick' else 40
+    if common.REDUCED:
+        nblocks = 2
     reqs = []
     meta = []
     done = 0
@@ -128,6 +130,48 @@ def run(tier, seed):
                         ck.count('%s/undecodable' % kind)
                     ltbl = [[k.encode(), i, o] for (k, i, o) in local]
                     ops.append([6, alt, ts, ltbl])
+                # a resource failure in the middle of validating an altered block (the hash function runs out of memory
+                # once) must not change the verdict of the same bytes offered again: genuine block validated last, then a
+                # sample of header alterations, each offered while scrypt fails once and then once more
+                import sys as _sys
+                genuine_ok, _ = consensus_check.impl_verdict(cs, blk, ts)
+                sb_len = len(spec.BlockView(blk).summary_bytes)
+                nonce_at = 1 + sb_len - 4                    # header = version byte, summary (nonce last), evidence
+                time_at = nonce_at - 32 - 4
+                hdr_bits = [nonce_at * 8 + i for i in range(32)] + [time_at * 8 + 24 + i for i in range(8)]
+                for pos in hdr_bits:
+                    b_ = bytearray(bs)
+                    b_[pos // 8] ^= 1 << (7 - pos % 8)
+                    alt = bytes(b_)
+                    consensus_check.impl_verdict(cs, blk, ts)             # the genuine block is what was hashed last
+                    patched = []
+                    state = {'failed': False}
+                    for mn, mod in list(_sys.modules.items()):
+                        if (mn == 'skepticoin' or mn.startswith('skepticoin.')) and mod is not None and 'scrypt' in getattr(mod, '__dict__', {}):
+                            orig_s = mod.__dict__['scrypt']
+
+                            def failing(*a, _o=orig_s, **kw):
+                                if not state['failed']:
+                                    state['failed'] = True
+                                    raise MemoryError('injected')
+                                return _o(*a, **kw)
+                            patched.append((mod, orig_s))
+                            mod.scrypt = failing
+                    try:
+                        c1, _b1 = impl_try(cs, alt, ts)
+                    finally:
+                        for mod, o_ in patched:
+                            mod.scrypt = o_
+                    c2, ablk2 = impl_try(cs, alt, ts)
+                    ck.count('alteration-offered-again-after-failed-hash')
+                    if c2 == [1]:
+                        ck.violation('altered-block-accepted-after-failed-attempt', 'a block altered by a flip at bit %d is accepted '
+                                     'when it is offered again after a first validation attempt was interrupted by a '
+                                     'MemoryError in the hash function' % pos,
+                                     {'label': 'altered', 'prefix': [m.block.serialize().hex() for m in nodes], 'block': alt.hex(),
+                                      'now': ts, 'period': env.period, 'span': env.span, 'interval': env.interval,
+                                      'needs': 'genuine block validated, then this block offered while scrypt raises once, then again'})
+                        break
                 ck.count('altered-encodings-that-decode', n_dec)
                 tbl = []
                 for nd in nodes:
